@@ -14,6 +14,7 @@ Clause → theorem
 | every debt-minting handler has the ESM guard on every route, before its first write | `esm_list_guarded` (+ `esm_rejected_on_every_route`) |
 | vault withdraw has the cool-off guard before its first write | `cooloff_list_guarded` |
 | no price-lookup error is swallowed into a success or overwritten before it is tested; which handlers look prices up | `no_price_error_swallowed`, `price_errors_never_overwritten`, `price_errors_ignored_pinned`, `price_calls_checked_pinned`, `price_guard_pinned`, `price_dominates_pinned` |
+| a TWA record read directly is activity-tested on the same variable | `twa_reads_test_own_activity`, `twa_reads_found_checked`, `twa_reads_pinned` |
 | sweeps / auction starters skip controlled apps | `sweeps_skip_controlled`, `sweeps_pinned` |
 | what the code guards beyond the text | `breaker_guarded_pinned`, `esm_guarded_pinned` |
 
@@ -175,6 +176,41 @@ theorem price_calls_checked_pinned :
        ("LiquidateVaults", "assetIn.Id"), ("MsgLiquidateVault", "assetIn.Id"),
        ("CalculateCollateralizationRatio", "assetInData.Id"), ("CalculateCollateralizationRatio", "assetOutData.Id")] := by
   decide +kernel
+
+/-- Direct reads of a TWA record (`x, found := ….GetTwa(ctx, id)`, outside the market module): the activity test that follows
+is on the SAME variable that was just read. `if !found || !twaOther.IsPriceActive` after reading `twaThis` (status `other`) lets an
+operation run on an inactive feed; it is excluded for every read site. The two reads that are not activity-tested at all are
+listed and reviewed:
+* `x/liquidity/keeper/rewards.go CalcAssetPrice` — the liquidity module's own valuation helper accepts any record with
+  `Twa > 0`; it is only used to weight rewards / fees (its callers discard the error, see `price_errors_ignored_pinned`).
+* `x/auctionsV2/keeper/bid.go PlaceDutchAuctionBid` — the bid reads the debt asset's TWA with `debtToken, _ :=` and no test
+  (notes/C14.md, observation). -/
+def twaUntestedReviewed : List (String × String) := [
+  ("x/auctionsV2/keeper/bid.go", "PlaceDutchAuctionBid"), ("x/liquidity/keeper/rewards.go", "CalcAssetPrice")]
+
+theorem twa_reads_test_own_activity :
+    ∀ r ∈ twaReads, r.status = "own" ∨ (r.status = "untested" ∧ (r.file, r.fn) ∈ twaUntestedReviewed) := by decide +kernel
+
+theorem twa_reads_found_checked :
+    ∀ r ∈ twaReads, r.status = "own" → r.foundChecked = true := by decide +kernel
+
+theorem twa_reads_pinned :
+    twaReads.length = 20 ∧ (twaReads.filter fun r => r.status == "own").length = 18 ∧
+    (twaReads.filter fun r => r.status == "other").length = 0 ∧
+    (twaReads.filter fun r => r.status == "own").map (fun r => (r.fn, r.var, r.asset)) =
+      [("StartDutchAuction", "twaData", "assetOutID"), ("StartDutchAuction", "twaData", "assetInID"),
+       ("RestartDutchAuctions", "twaData", "dutchAuction.AssetInId"), ("RestartDutchAuctions", "twaData", "dutchAuction.AssetOutId"),
+       ("StartLendDutchAuction", "twaInData", "assetInID"), ("StartLendDutchAuction", "twaData", "assetOutID"),
+       ("RestartDutchLendAuctions", "twaData", "dutchAuction.AssetInId"),
+       ("RestartDutchLendAuctions", "twaData", "dutchAuction.AssetOutId"),
+       ("DutchAuctionActivator", "twaDataCollateral", "liquidationData.CollateralAssetId"),
+       ("DutchAuctionActivator", "twaDataDebt", "liquidationData.DebtAssetId"),
+       ("RestartDutchAuction", "twaDataCollateral", "dutchAuction.CollateralAssetId"),
+       ("RestartDutchAuction", "twaDataDebt", "dutchAuction.DebtAssetId"),
+       ("UpdateDutchAuction", "twaDataCollateral", "dutchAuction.CollateralAssetId"),
+       ("UpdateDutchAuction", "twaDataDebt", "dutchAuction.DebtAssetId"),
+       ("SnapshotOfPrices", "price", "a.Id"), ("OraclePrice", "price", "asset.Id"), ("OraclePrice", "price", "asset.Id"),
+       ("OraclePriceForRewards", "price", "asset.Id")] := by decide +kernel
 
 /-- every operation of the expected list contains a price lookup whose error is returned (conditional in the vault module:
 after ESM the snapshot price is used instead) -/
